@@ -101,6 +101,20 @@ func (p *ParserData) AddDiceDetail(begin IntType, end IntType) {
 	p.WriteCode(typeDetailMark, BufferSpan{Begin: begin, End: end})
 }
 
+// AddDiceDetailTrimmed 同 AddDiceDetail，但区间不包含算式末尾被解析器顺带吃掉的空白(如右括号之后的空格)，
+// 这些空白不属于该算式，否则计算过程会随算式后面跟着什么文本而变化
+func (p *ParserData) AddDiceDetailTrimmed(data []byte, begin IntType, end IntType) {
+	for end > begin && int(end) <= len(data) {
+		switch data[end-1] {
+		case ' ', '\t', '\n', '\r':
+			end--
+			continue
+		}
+		break
+	}
+	p.AddDiceDetail(begin, end)
+}
+
 func (e *ParserData) AddOp(operator CodeType) {
 	var val interface{} = nil
 	if operator == typeJne || operator == typeJmp {
